@@ -287,7 +287,12 @@ func runC06Def(c *Ctx, def ref.Mode) {
 	c.Parallel("grid", def, func(sh *mon.Shard, r *gen.RNG) {
 		j := &textJudge{ctx: c, sh: sh}
 		sh.Cell(fmt.Sprintf("readback-default-mode/%d", def))
-		reps := (c.N(6, 80) + 5) / 6
+		// the repetitions are shared out over the six default modes (the 1/10 coverage prefix has fewer than six)
+		total := c.N(6, 80)
+		reps := total / 6
+		if int(def) < total%6 {
+			reps++
+		}
 		idx := 0
 		for rep := 0; rep < reps; rep++ {
 			for nd := 1; nd <= 35; nd++ {
